@@ -36,7 +36,7 @@ type c13Case struct {
 var c13Ops = []string{
 	"commit", "multiprove", "multiprove_shared_index", "multiverify", "multiverify_bad", "ipaprove", "ipaverify", "ipaverify_bad",
 	"multiscalar_srs", "multiexp", "multiexp_regular", "elem_codec", "batch_codec", "fr_decode", "batchinvert", "bary", "divide", "innerprod",
-	"transcript", "group_ops_on_config", "proof_serde", "batchnormalize", "msm_short", "noise", "noise",
+	"transcript", "group_ops_on_config", "proof_serde", "proof_read_into_copy", "batchnormalize", "msm_short", "noise", "noise",
 }
 
 func genC13(t *rapid.T) c13Case {
@@ -396,8 +396,11 @@ func doCall(env *c13Env, c pcall, rec *hx.Rec) error {
 		if !sameFr(f, s) {
 			return fail("the polynomial was modified")
 		}
-	case "multiprove", "multiprove_shared_index":
+	case "multiprove", "multiprove_shared_index", "multiprove_large":
 		n := 1 + c.N%5
+		if c.Op == "multiprove_large" { // more distinct, non-normalised commitment objects than any internal block size
+			n = 1030 + c.N%20
+		}
 		set := openSet{Label: fmt.Sprintf("l%d", c.K%3)}
 		for i := 0; i < 1+c.N%3; i++ {
 			set.Polys = append(set.Polys, polySpec{Kind: []string{"dense", "sparse", "const", "dense"}[(c.K+i)%4], Seed: c.Seed + uint64(i), Idx: []int{c.K, (c.K + 9) & 255}, Val: "5"})
@@ -408,7 +411,10 @@ func doCall(env *c13Env, c pcall, rec *hx.Rec) error {
 				o.Z = c.K // every opening shares the evaluation index (the aliasing shape)
 				n = maxInt(n, 2)
 			}
-			if c.Flag && i > 0 && i%2 == 0 {
+			if c.Op == "multiprove_large" {
+				o.Rep = 1 + 2*(i%2)
+			}
+			if c.Flag && i > 0 && i%2 == 0 && c.Op != "multiprove_large" {
 				o.Share, o.Rep, o.Lambda = i-1, 0, 0 // reuse a commitment pointer
 				o.Poly = set.Open[i-2].Poly
 			}
@@ -752,6 +758,38 @@ func doCall(env *c13Env, c pcall, rec *hx.Rec) error {
 		if !bytes.Equal(raw, buf.Bytes()) || env.lastProof.D != snap.D || !sameEl(lSnap, env.lastProof.IPA.L) || !sameEl(rSnap, env.lastProof.IPA.R) {
 			return fail("serialisation modified the proof or the bytes")
 		}
+	case "proof_read_into_copy":
+		// A by-value copy of a proof object shares its L/R backing arrays with the original. Decoding other bytes into the
+		// copy (completely, or failing half way) must leave the original proof - which is not an argument of the call - intact.
+		other := c10Case{Kind: "multi", Base: "valid", Seed: c.Seed, Field: -1}.bytesOf()
+		if c.Flag {
+			other = other[:32*(1+c.K%17)+c.N%32]
+		}
+		if env.lastProof != nil {
+			orig := env.lastProof
+			dSnap, aSnap := orig.D, orig.IPA.A_scalar
+			lSnap, rSnap := snapEl(orig.IPA.L), snapEl(orig.IPA.R)
+			scratch := *orig
+			if perr := hx.Try(func() { _ = scratch.Read(bytes.NewReader(other)) }); perr != nil {
+				return fail("MultiProof.Read: %v", perr)
+			}
+			if orig.D != dSnap || orig.IPA.A_scalar != aSnap || !sameEl(lSnap, orig.IPA.L) || !sameEl(rSnap, orig.IPA.R) {
+				return fail("MultiProof.Read into a by-value copy of a proof modified the original proof object (%d input bytes)", len(other))
+			}
+		}
+		if env.lastIPA != nil {
+			orig := env.lastIPA
+			aSnap := orig.A_scalar
+			lSnap, rSnap := snapEl(orig.L), snapEl(orig.R)
+			scratch := *orig
+			in := other[32:]
+			if perr := hx.Try(func() { _ = scratch.Read(bytes.NewReader(in)) }); perr != nil {
+				return fail("IPAProof.Read: %v", perr)
+			}
+			if orig.A_scalar != aSnap || !sameEl(lSnap, orig.L) || !sameEl(rSnap, orig.R) {
+				return fail("IPAProof.Read into a by-value copy of a proof modified the original proof object (%d input bytes)", len(in))
+			}
+		}
 	case "noise": // unrelated calls including failing ones (their own arguments are not snapshotted; the shared state is)
 		runNoise(c.Seed|1, 3, true)
 	default:
@@ -826,5 +864,8 @@ func TestC13(t *testing.T) {
 		all = append(all, pcall{Op: op, Seed: uint64(100*hx.Shard() + i), N: 7 + i, K: (13*i + hx.Shard()) & 255, Flag: i%2 == 0})
 	}
 	c13Part.EvalCase(s, c13Case{Calls: all, Probe: []int{3, len(all) - 1}})
+	if hx.Sharded(1) || hx.Thorough() {
+		c13Part.EvalCase(s, c13Case{Calls: []pcall{{Op: "multiprove_large", Seed: uint64(7 + hx.Shard()), N: hx.Shard(), K: 11}, {Op: "multiverify", Seed: 3}}, Probe: []int{1}})
+	}
 	c13Part.Run(s, hx.PerShard(hx.Pick(640, 9600)))
 }
